@@ -364,6 +364,45 @@ func convValues(method string, src *TypeDesc) []*V {
 	return out
 }
 
+// runConvPair: two conversions/constructions to the SAME target type, both results kept;
+// the first result must still hold what it held before the second call (a result that is
+// a fresh scalar "holding that value" cannot change because another one is requested).
+// Purely differential: the first result is read before and after the second call.
+func runConvPair(c *vf.Ctx, u *unitAgg, method string, src, tgt *TypeDesc, v1, v2 *V, rank int64) {
+	if !validTarget(method, tgt) {
+		return
+	}
+	cs := Case{Kind: "convpair", Op: method, Tgt: tgt.Name, Vals: []string{v1.Name, v2.Name}}
+	if src != nil {
+		cs.Recv = src.Name
+	}
+	r1, pn1 := runConv(method, src, tgt, v1)
+	if pn1 != "" || r1 == nil || r1.Type() != tgt.ST {
+		return // judged by the single-conversion check
+	}
+	before := readStored(tgt.K, r1)
+	r2, pn2 := runConv(method, src, tgt, v2)
+	c.Eval(1)
+	if pn2 != "" || r2 == nil {
+		return
+	}
+	c.Nontrivial(1)
+	c.Count("conversion pairs to one target type, first result re-read", 1)
+	after := readStored(tgt.K, r1)
+	same := before.I == after.I && math.Float64bits(before.F) == math.Float64bits(after.F)
+	if !same {
+		opnd := []string{tgt.Name}
+		if tgt.Const {
+			opnd[0] = "Const*"
+		}
+		u.fail("earlier-result-changed", opnd, signClass(v1.F), "", rank, cs,
+			fmt.Sprintf("the result of %s(%s) read %v before and %v after a second %s(%s) to the same type", method, v1.Name, before, after, method, v2.Name))
+		c.Outcome("fail:earlier-result-changed")
+		return
+	}
+	c.Outcome("ok:earlier-result-kept")
+}
+
 func runConvUnit(c *vf.Ctx, un convUnit) {
 	name := "-"
 	if un.src != nil {
@@ -371,9 +410,15 @@ func runConvUnit(c *vf.Ctx, un convUnit) {
 	}
 	u := newUnitAgg(un.method + "|src=" + name)
 	u.opndLabel = "tgt"
-	for iv, v := range convValues(un.method, un.src) {
+	vals := convValues(un.method, un.src)
+	for iv, v := range vals {
 		for it, tgt := range realTypes {
 			runOneConv(c, u, un.method, un.src, tgt, v, int64(iv)*100+int64(it))
+			// histories of two calls: neighbouring values of the lattice, both orders
+			if iv+1 < len(vals) {
+				runConvPair(c, u, un.method, un.src, tgt, v, vals[iv+1], int64(iv)*100+int64(it))
+				runConvPair(c, u, un.method, un.src, tgt, vals[iv+1], v, int64(iv)*100+int64(it))
+			}
 		}
 	}
 	u.flush(c, false)
@@ -384,6 +429,21 @@ func replayConv(c *vf.Ctx, cs Case) {
 	var src *TypeDesc
 	if cs.Recv != "" {
 		src = typeByName[cs.Recv]
+	}
+	if cs.Kind == "convpair" {
+		if tgt == nil || len(cs.Vals) != 2 || lookupV(cs.Vals[0]) == nil || lookupV(cs.Vals[1]) == nil {
+			c.HarnessError("replay: malformed convpair case")
+			return
+		}
+		name := "-"
+		if src != nil {
+			name = strings.TrimSuffix(src.Name, "'")
+		}
+		u := newUnitAgg(cs.Op + "|src=" + name)
+		u.opndLabel = "tgt"
+		runConvPair(c, u, cs.Op, src, tgt, lookupV(cs.Vals[0]), lookupV(cs.Vals[1]), 0)
+		u.flush(c, true)
+		return
 	}
 	if tgt == nil || len(cs.Vals) != 1 || lookupV(cs.Vals[0]) == nil {
 		c.HarnessError("replay: malformed conv case")
